@@ -63,7 +63,7 @@ def signature(ops, idx):
     return "sequential-result-differs"
 
 
-def linearizable(events):
+def linearizable(events, init=None):
     """Wing-Gong search. events: list of (thread, call, ret, op, result)"""
     n = len(events)
     sys.setrecursionlimit(10000)
@@ -106,7 +106,7 @@ def linearizable(events):
             if ok and go(done | frozenset([i]), st2):
                 return True
         return False
-    return go(frozenset(), frozenset())
+    return go(frozenset(), frozenset((init or {}).items()))
 
 
 def gen_seq_cases(chk):
@@ -142,8 +142,111 @@ def gen_seq_cases(chk):
     return cases
 
 
+KEYS = {1: [0, 1, 2], 2: [0, 2, 1, 3], 3: [0, 3, 1, 4], 19: [0, 19, 1, 20, 5]}
+
+# programs aimed at the case splits of the protocol: a reader of all buckets against a writer that moves an
+# entry between buckets; two writers and a reader on one bucket; clear against writers; readers only
+CORPUS = ["explore 19 2 8000 i:19:1 i:0:5,e:19|D", "explore 19 2 8000 i:1:1 i:0:5,e:1|D", "explore 19 2 8000 i:0:1 i:1:5,e:0|D",
+          "explore 2 2 20000 i:1:1 i:0:5,e:1|D|C", "explore 2 3 20000 i:0:1 i:2:5|e:0,i:4:1", "explore 1 2 20000 i:0:1 i:2:5|e:0,i:4:1|f:2",
+          "explore 1 3 20000 i:1:1,i:3:3 i:2:2|e:1|f:3", "explore 2 2 20000 i:0:1 E|e:0,i:1:1", "explore 3 2 20000 i:0:1,i:1:1 C|i:2:2|E",
+          "explore 2 2 20000 - i:0:1,i:1:2|i:1:3,i:0:4", "explore 19 2 8000 i:0:1,i:19:2 e:0|e:19|f:19", "explore 3 3 20000 i:0:1 D|D|e:0,i:1:1"]
+
+
+def gen_explore(chk):
+    rng = chk.rng
+    cases = list(CORPUS)
+    n = 40 if chk.tier == "quick" else 900
+    for _ in range(n):
+        nb = rng.choice([1, 2, 3, 19])
+        ks = KEYS[nb]
+
+        def op(j):
+            c = rng.random()
+            k = rng.choice(ks)
+            if c < 0.35: return "i:%d:%d" % (k, rng.randrange(1, 90))
+            if c < 0.6: return "e:%d" % k
+            if c < 0.75: return "f:%d" % k
+            if c < 0.85: return "E"
+            if c < 0.95: return "D"
+            return "C"
+        pre = ",".join("i:%d:%d" % (k, rng.randrange(1, 90)) for k in ks if rng.random() < 0.5) or "-"
+        nt = rng.choice([2, 2, 3])
+        prog = "|".join(",".join(op(j) for j in range(rng.choice([1, 2] if nt == 3 else [1, 2, 2, 3]))) for _ in range(nt))
+        if not any(x in prog for x in ("i:", "e:", "C")):
+            continue
+        bound = 2 if chk.tier == "quick" else 3
+        cap = (3000 if nb == 19 else 6000) if chk.tier == "quick" else 60000
+        cases.append("explore %d %d %d %s %s" % (nb, bound, cap, pre, prog))
+    return cases
+
+
+def parse_history(line):
+    evs = []
+    for e in line.split(" "):
+        p = e.split("/")
+        if len(p) != 5:
+            return None
+        evs.append((p[0], int(p[1]), int(p[2]), p[3], p[4]))
+    return evs
+
+
+def init_of(prefill):
+    d = {}
+    if prefill != "-":
+        for o in prefill.split(","):
+            p = o.split(":")
+            d[int(p[1])] = int(p[2])
+    return d
+
+
+def explore(chk):
+    """systematic schedules over the real map (cpp/h_conc.cpp); every reported history is re-checked here"""
+    import vlib
+    from concurrent.futures import ThreadPoolExecutor
+    hb, hlog = vlib.build_harness("h_conc")
+    if not hb:
+        chk.broken.append("harness h_conc does not compile against the current tree: " + hlog[-800:])
+        return
+    cases = gen_explore(chk)
+    shards = [cases[i::14] for i in range(14)]
+    with ThreadPoolExecutor(14) as ex:
+        res = list(ex.map(lambda sh: vlib.run_cases_resilient(hb, sh, timeout=1500) if sh else ([], []), shards))
+    total = bad = 0
+    for sh, (outs, crashes) in zip(shards, res):
+        for c, line in zip(sh, outs):
+            f = c.split(" ")
+            m = __import__("re").match(r"n=(\d+) bad=(\d+) dead=(\d+)(?: first=(\S+);(.*))?$", line)
+            if not m:
+                chk.violation("a schedule of the concurrent map crashed or did not finish: " + line[:200],
+                              {"case": c, "impl": line}, True, "concurrent-crash")
+                continue
+            total += int(m.group(1))
+            if int(m.group(2)) + int(m.group(3)) == 0:
+                continue
+            sched, hist = m.group(4), m.group(5)
+            rc = "runsched %s %s %s %s" % (f[1], f[4], f[5], sched)
+            dead = hist.startswith("DEADLOCK")
+            evs = parse_history(hist.replace("DEADLOCK ", "").replace("LOCK-MISUSE ", ""))
+            if dead:
+                chk.violation("threads deadlock under schedule %s of program %s" % (sched, f[5]), {"case": rc, "history": hist, "prefill": f[4]}, True, "deadlock")
+                bad += 1
+            elif evs is not None and not linearizable(evs, init_of(f[4])):
+                chk.violation("history of the real map under schedule %s is not linearizable to an ordinary map: %s" % (sched, hist[:300]),
+                              {"case": rc, "history": hist, "prefill": f[4]}, True, "non-linearizable-history")
+                bad += 1
+            elif "LOCK-MISUSE" in hist:
+                chk.violation("a shared_mutex is unlocked while free / locked while held under schedule %s" % sched,
+                              {"case": rc, "history": hist, "prefill": f[4]}, True, "lock-misuse")
+                bad += 1
+            else:
+                chk.broken.append("h_conc reported a history the oracle accepts: %s -> %s" % (c, line[:200]))
+    chk.cov["evaluations"] += total
+    chk.cov["schedules"] = {"programs": len(cases), "schedules_run": total, "failing_programs": bad}
+
+
 def run(chk):
     chk.prove("Properties_C18")
+    explore(chk)
     cases = gen_seq_cases(chk)
     pairs, diffs = chk.correspond("h_map", cases, label="h_map sequential")
     for c, m, i in pairs:
@@ -192,7 +295,10 @@ def run(chk):
                        "each followed by data(), on 1, 2 and 19 buckets with an identity hash (exhaustive), plus random sequences of 4..14 operations over "
                        "3..40 keys incl. negative ones; model result compared exactly with the implementation, and the implementation compared with a "
                        "python dict (the oracle). non-trivial = the sequence contains both an insert and an erase; distinct = distinct case lines. "
-                       "concurrent (supporting): 2..8 real threads, recorded call/return clocks, Wing-Gong linearizability search against a dict")
+                       "schedules: for %d small programs (2-3 threads, 1-3 operations each, keys chosen to share and not to share buckets) every "
+                       "interleaving of the real map at lock/unlock granularity with a bounded number of preemptions (cpp/h_conc.cpp: coroutines, "
+                       "simulated shared_mutex), each history checked for linearizability twice (harness, then the python Wing-Gong search); "
+                       "real threads (supporting): 2..8 threads, recorded call/return clocks, Wing-Gong search against a dict" % chk.cov.get("schedules", {}).get("programs", 0))
     chk.cov["exhaustive"] = True
     chk.cov["samples"] = [pairs[j][0] + " => " + pairs[j][2] for j in (7, len(pairs) // 2, len(pairs) - 1) if j < len(pairs)]
     chk.cov["traces_validated_against_impl"] = len(pairs)
@@ -209,6 +315,15 @@ def replay(body):
     hb, _ = vlib.build_harness("h_map")
     out, _, _ = vlib.run_cases(hb, [case])
     print("case: %s\nimpl: %s" % (case, out[0] if out else "?"))
+    if case.startswith("runsched"):
+        hb, _ = vlib.build_harness("h_conc")
+        out, _, _ = vlib.run_cases(hb, [case])
+        hist = out[0] if out else "?"
+        print("case: %s\nhistory: %s" % (case, hist))
+        evs = parse_history(hist.replace("DEADLOCK ", "").replace("LOCK-MISUSE ", ""))
+        ok = evs is not None and not hist.startswith("DEADLOCK") and "LOCK-MISUSE" not in hist and linearizable(evs, init_of(r.get("prefill", "-")))
+        print("linearizable to an ordinary map" if ok else "property violated: not linearizable / deadlock")
+        return 0 if ok else 1
     if case.startswith("hmap"):
         bad = check_seq(case.split(" ")[2].split(","), out[0])
         print("property violated: %s" % (bad,) if bad else "property holds on this case")
